@@ -123,6 +123,24 @@ def check(env, rep, tier):
         predicate_rule(prog, rep, "C14.1", "register", (0,), {"endpoint"}, 1)
         predicate_rule(prog, rep, "C14.1", "deregister", (0,), {"endpoint", "token"}, 2)
 
+        # the index a search returns is used on the vector itself: the search has to count from the front
+        for meth in ("register", "deregister"):
+            mb = find_body(prog, SUBJ + meth)
+            if mb is None:
+                continue
+            revs = []
+            for x in reachable(prog, mb):
+                if not x["path"].startswith("observe::"):
+                    continue
+                for bb in x["blocks"]:
+                    t = bb["term"]
+                    if t["k"] == "call" and not bb.get("cleanup"):
+                        pth = (t.get("resolved") or t.get("callee") or {}).get("path", "") or ""
+                        if pth.endswith("Iterator::rev") or pth.endswith("::reverse"):
+                            revs.append((x["path"], bb["tspan"]["l"]))
+            rep.ob("C14.2", "%s|forward-search" % meth, not revs,
+                   "%s searches the observer list back to front (%s): a position counted from the end is then used as an index from the front "
+                   "(another observer is replaced / removed)" % (meth, revs[:2]), {"file": mb["span"]["f"], "line": mb["span"]["l"], "fn": mb["path"]})
         rest_of_check(prog, rep, i_unack, i_mid)
         keyed_access(prog, rep)
 
